@@ -55,7 +55,7 @@ def gen_value(rng, allow_semicolon=True):
 
 DEFAULT_PROFILE = {
     "put": 30, "post": 5, "delete": 10, "mk": 4, "delcoll": 2, "proppatch": 6, "restart": 3,
-    "lock": 2, "get": 4, "multiget": 4, "reupload": 4, "uidquery": 1,
+    "lock": 2, "get": 4, "multiget": 4, "reupload": 4, "uidquery": 1, "drain": 1,
     "fault": 0.0,      # probability that a PUT/DELETE runs with an injected ENOSPC
     "cond": 0.35,      # probability that a PUT/DELETE carries a conditional header
     "invalid": 0.12,   # probability that a PUT body is from an invalid class
@@ -71,7 +71,7 @@ PROFILES = {
     "C06": {"put": 45, "delete": 14, "restart": 6, "post": 8, "uidheavy": True, "uidquery": 8},
     "C07": {"delete": 18, "put": 34, "delcoll": 3, "mk": 5, "reupload": 6},
     "C08": {"proppatch": 14, "delete": 14, "reupload": 8, "restart": 5, "retype": 0.2},
-    "C09": {"proppatch": 12, "lock": 6, "reupload": 8, "delete": 9, "untyped": 0.45, "len": 36, "put": 40,
+    "C09": {"drain": 3, "proppatch": 12, "lock": 6, "reupload": 8, "delete": 9, "untyped": 0.45, "len": 36, "put": 40,
             "get": 8, "manynames": True},
     "C14": {"invalid": 0.3, "reupload": 16, "put": 40, "grammar": 0.65, "ctparams": 0.6, "otherfiles": 0.15},
     "C15": {"proppatch": 45, "restart": 8, "mk": 6, "delcoll": 3, "put": 12, "propheavy": True, "propsingle": 0.4},
@@ -213,7 +213,7 @@ def run_random_session(seed, prof, frontend="wsgi", prefix="/", backend="tree", 
                     s.mk(c, k, how=how, props=props)
         stored_opaque = {}
         ops = [(k, prof.get(k, 0)) for k in ("put", "post", "delete", "mk", "delcoll", "proppatch",
-                                             "restart", "lock", "get", "multiget", "reupload", "uidquery")]
+                                             "restart", "lock", "get", "multiget", "reupload", "uidquery", "drain")]
         for _ in range(prof["len"]):
             op = weighted(rng, ops)
             c = rng.choice(slots) if rng.random() < 0.25 else rng.choice(slots[:1] + slots[-1:])
@@ -337,6 +337,10 @@ def run_random_session(seed, prof, frontend="wsgi", prefix="/", backend="tree", 
                     s.lock(c, False)
                 elif backend in ("tree", "treecfg"):
                     s.lock(c, True)
+            elif op == "drain":
+                # the collection is emptied, member by member
+                for n in sorted(live):
+                    s.delete(c, n)
             elif op == "uidquery":
                 # how clients look an object up by UID: repeated, so that a server that indexes
                 # frequent queries starts answering from its index
